@@ -18,7 +18,7 @@ TBatch == Is("Batch") /\ BatchAllowed(p, [n |-> Ev.n, normal |-> Ev.normal, erro
 (* after a hang in the same driver process the remaining batches are skipped (the hang has its own, rejected, trace) *)
 TSkipped == Is("Skipped") /\ UNCHANGED p /\ Adv
 
-TInit == l = 1 /\ p = [ext |-> 0]
+TInit == l = 1 /\ p = [kind |-> "enum", ext |-> 0]
 TNext == TReset \/ TBatch \/ TSkipped
 TSpec == TInit /\ [][TNext]_tvars
 
